@@ -6,6 +6,7 @@ from units import U, BLOCK
 from common import err
 
 ID = 'C15'
+ZERO_LABELS = True      # a share of the cases is asked with candidates numbered from 0 (harness/common.py LABEL_MODE)
 LEVEL = 'proof'
 TIE = {'core.AllowOverhang / LevelOverhang / AdjustedSeatCount': 'correspondence',
        'proportional.HighestAverages / LargestRemainder (inner evaluators)': 'models of C01 / C02',
